@@ -196,6 +196,9 @@ enum InnerError {
     #[snafu(display("Invalid BitsAllocated, must be 1, 8 or 16"))]
     InvalidBitsAllocated { backtrace: Backtrace },
 
+    #[snafu(display("Invalid BitsStored, must be between 1 and BitsAllocated"))]
+    InvalidBitsStored { backtrace: Backtrace },
+
     #[cfg(any(feature = "image", feature = "gdcm"))]
     #[snafu(display("Unsupported PhotometricInterpretation `{pi}`"))]
     UnsupportedPhotometricInterpretation {
@@ -2163,6 +2166,11 @@ impl ImagingProperties {
         let planar_configuration = planar_configuration(obj)?;
         let bits_allocated = bits_allocated(obj)?;
         let bits_stored = bits_stored(obj)?;
+        // (look up tables are built with 2^BitsStored entries)
+        ensure!(
+            bits_stored >= 1 && bits_stored <= bits_allocated,
+            InvalidBitsStoredSnafu
+        );
         let high_bit = high_bit(obj)?;
         let pixel_representation = pixel_representation(obj)?;
         let rescale_intercept = rescale_intercept(obj);
